@@ -22,7 +22,10 @@ RULE = ('A case is a generated audit trail on the in-memory ZooKeeper: 2-7 '
         '1-3 passes of the cleanup loop; between passes the clock advances '
         '(1 s - 1 h) and 0-4 generated world steps happen through the real '
         'producers (new trace events, terminal events whose publish() '
-        'REWRITES existing /finished records, instances unscheduled, server '
+        'REWRITES existing /finished records, instances unscheduled, NEW '
+        'instances scheduled by the master (a new id under /scheduled, the '
+        'pending event of create_apps and 0-4 start-up events, which later '
+        'ops address like any other instance), server '
         'events); the oracle is evaluated after every pass against the '
         'records as they are then (a finished record = name + current '
         'content + current mtime; versions archived earlier stay owed). '
@@ -210,8 +213,9 @@ def _history():
 
 @st.composite
 def _step_op(draw):
-    pick = draw(st.integers(0, 19))
-    inst = draw(st.integers(0, 6))
+    pick = draw(st.integers(0, 23))
+    # population + instances scheduled so far (`i` is taken modulo)
+    inst = draw(st.integers(0, 9))
     var = draw(st.integers(0, 8))
     if pick < 9:
         # a further terminal event: publish() rewrites /finished/<instance>
@@ -225,8 +229,22 @@ def _step_op(draw):
                     else [0, SECOND // 2, SECOND]))}
     if pick < 18:
         return {'op': 'unschedule', 'i': inst}
-    return {'op': 'server_event', 'i': inst, 'k': draw(st.integers(0, 2)),
-            'v': var}
+    if pick < 20:
+        return {'op': 'server_event', 'i': inst, 'k': draw(st.integers(0, 2)),
+                'v': var}
+    # the master schedules a NEW instance (an id above every id of the
+    # population: instance ids are sequence numbers) and it starts: the
+    # `pending` event of create_apps plus 0-4 further events, mostly the
+    # non-terminal ones of a start-up. /scheduled grows between two passes.
+    events = draw(st.lists(
+        st.fixed_dictionaries({
+            'k': st.sampled_from([0, 0, 2, 3, 3, 4, 1, 5, 6]),
+            'v': st.integers(0, 8)}),
+        min_size=0, max_size=4))
+    return {'op': 'schedule', 'app': draw(st.sampled_from(APPS)),
+            'id': (draw(st.sampled_from([1, 2, 3, 123, 255])) +
+                   256 * draw(st.integers(40, 47))),
+            'events': events}
 
 
 def _steps():
@@ -304,16 +322,24 @@ def execute(case, stats):
         steps = case.get('steps', [])
         uploads = {fam: 0 for fam in archiver.FAMILY_ORDER}
         prunes = 0
+        late_expired = 0
         for group in steps:
             outcome, _done = world.run()
             assert outcome == 'completed'
             world.check('clean', True)
             prunes += _tally(world, world.oplog, uploads)
             stats.count('earlier_passes')
-            before = (len(world.finished), len(world.events['trace']))
+            before = (len(world.finished), len(world.events['trace']),
+                      len(world.late))
             rewritten = _live_finished(world)
             world.apply_steps(group)
             stats.count('world_ops', len(group['ops']))
+            stats.count('instances_scheduled_between_passes',
+                        len(world.late) - before[2])
+            # what the coming pass must leave alone although it is expired:
+            # events of an instance that was not scheduled (did not exist)
+            # at an earlier pass of this process
+            late_expired += world.late_scheduled_expired()
             stats.count('finished_records_rewritten_between_passes',
                         len(rewritten - _live_finished(world)))
             stats.count('trace_events_published_between_passes',
@@ -416,6 +442,11 @@ def execute(case, stats):
             stats.count('class:all-families-and-pruning')
         if nontrivial and steps:
             stats.count('class:multi-pass')
+        stats.count('trace_old_of_instance_scheduled_between_passes',
+                    late_expired)
+        if late_expired and uploads['trace']:
+            stats.count('class:expired-events-of-instance-scheduled-'
+                        'between-passes')
         if gapped:
             stats.count('class:instance-spans-gap-snapshot')
         return nontrivial
@@ -517,7 +548,42 @@ def fixed_cases():
     drv_multi = dict(multi, driver=True)
     drv_multi['params'] = dict(multi['params'], evict_max=1003, svc_max=2005,
                                interval=59)
+    # three passes of the real command, one minute in all, trace expiry 30 s:
+    # after the first pass the master schedules a new instance which starts
+    # (five events); at the third pass these events are older than the expiry
+    # and would fill a batch with the left-over event of the finished
+    # instance, but the instance is scheduled - although it was not when the
+    # process made its earlier passes (and the instance that was running then
+    # has been unscheduled since: /scheduled changed in both directions).
+    late = dict(base, driver=True)
+    late['order_seed'] = 1
+    late['params'] = dict(base['params'], trace_batch=4, trace_expire=30,
+                          finished_expire=1, evict_max=1004, svc_max=2006,
+                          interval=59)
+    late['history'] = {fam: {'gap': 0, 'snaps': []}
+                       for fam in ('trace', 'finished', 'server')}
+    late['servers'] = []
+    late['instances'] = [
+        {'app': 'proid.web', 'id': 1, 'scheduled': True,
+         'events': [_evt(-900 + idx, kind=kind)
+                    for idx, kind in enumerate([0, 2, 3])],
+         'finished': None},
+        {'app': 'proid.web', 'id': 2, 'scheduled': False,
+         'events': [_evt(-800 + idx, kind=kind)
+                    for idx, kind in enumerate([0, 2, 3, 4, 5])] +
+                   [_evt(5, kind=8)],
+         'finished': {'dt_ms': -700000, 's': 0}}]
+    late['steps'] = [
+        {'advance': 29, 'ops': [
+            {'op': 'schedule', 'app': 'proid.web', 'id': 3 + 256 * 40,
+             'events': [{'k': 0, 'v': 0}, {'k': 2, 'v': 1}, {'k': 3, 'v': 1},
+                        {'k': 3, 'v': 4}]}]},
+        {'advance': 31, 'ops': [
+            {'op': 'event', 'i': 2, 'k': 4, 'v': 1, 'back': 0},
+            {'op': 'unschedule', 'i': 0}]},
+    ]
     return [('aimed-mixed-batch5', base), ('aimed-batch1-max1', single),
             ('aimed-three-passes-rewritten-finished', multi),
             ('aimed-driver-mixed-batch7', drv),
-            ('aimed-driver-three-passes', drv_multi)]
+            ('aimed-driver-three-passes', drv_multi),
+            ('aimed-driver-instance-scheduled-between-passes', late)]
